@@ -399,9 +399,11 @@ class Net(object):
         return 'ok'
 
     def _gc(self, p):
-        if p.writer.state == 'closed' and p.reader.state == 'closed':
-            p.dead = True
         c = p.conn
+        if p.writer.state == 'closed' and p.reader.state == 'closed':
+            # both endpoints are gone: nothing on this connection can matter any more
+            c.p_cs.dead = True
+            c.p_sc.dead = True
         if c.p_cs.dead and c.p_sc.dead:
             self.conns.pop(c.cid, None)
             self.pipes.pop(c.p_cs.pid, None)
